@@ -226,3 +226,110 @@ Proof.
   rewrite <- (app_nil_r (concat pieces)) at 1. rewrite mark_app.
   rewrite <- mark_pieces_concat. reflexivity.
 Qed.
+
+(* ------------------------------------------------------------------------------------------------ *)
+(* unicode -> bytes direction: Codepage._split_unicode on ALL strings *)
+
+Definition clusters_nonempty (t : tables) : Prop := Forall (fun cl => cl <> []) t.(t_clusters).
+
+Fixpoint sorted_desc (l : list (list Z)) : bool :=
+  match l with
+  | a :: ((b :: _) as r) => (List.length b <=? List.length a)%nat && sorted_desc r
+  | _ => true
+  end.
+
+Lemma sorted_desc_head a r y : sorted_desc (a :: r) = true -> In y r ->
+  (List.length y <= List.length a)%nat.
+Proof.
+  revert a. induction r as [|b r IH]; intros a Hs Hy; [destruct Hy|].
+  cbn [sorted_desc] in Hs. apply andb_true_iff in Hs as [H1 H2]. apply Nat.leb_le in H1.
+  destruct Hy as [<-|Hy]; [exact H1|]. specialize (IH b H2 Hy). lia.
+Qed.
+
+Lemma sorted_desc_tail a r : sorted_desc (a :: r) = true -> sorted_desc r = true.
+Proof. destruct r as [|b r]; [reflexivity|]. cbn [sorted_desc]. intros H. apply andb_true_iff in H. tauto. Qed.
+
+(* the first match in a list sorted longest-first is at least as long as every other match *)
+Lemma find_first_longest (f : list Z -> bool) l : sorted_desc l = true ->
+  forall y, In y l -> f y = true ->
+  exists x, find f l = Some x /\ In x l /\ f x = true /\ (List.length y <= List.length x)%nat.
+Proof.
+  induction l as [|a r IH]; intros Hs y Hy Hf; [destruct Hy|].
+  cbn [find]. destruct (f a) eqn:Fa.
+  - exists a. repeat split; auto; [left; reflexivity|].
+    destruct Hy as [<-|Hy]; [lia|]. exact (sorted_desc_head a r y Hs Hy).
+  - destruct Hy as [<-|Hy]; [congruence|].
+    destruct (IH (sorted_desc_tail a r Hs) y Hy Hf) as (x & H1 & H2 & H3 & H4).
+    exists x. repeat split; auto. right; exact H2.
+Qed.
+
+Lemma starts_with_firstn pre l : starts_with pre l = true -> firstn (List.length pre) l = pre.
+Proof. unfold starts_with. intros H. apply list_Z_eqb_eq. exact H. Qed.
+
+Lemma match_len_pos t ucs : clusters_nonempty t -> (1 <= match_len t ucs)%nat.
+Proof.
+  unfold match_len, clusters_nonempty. intros Hn.
+  destruct (find (fun cl => starts_with cl ucs) (t_clusters t)) as [cl|] eqn:E; [|lia].
+  apply find_some in E as [Hin _]. rewrite Forall_forall in Hn. specialize (Hn cl Hin).
+  destruct cl; [congruence | cbn; lia].
+Qed.
+
+Lemma cluster_len_pos t ucs : clusters_nonempty t -> (1 <= cluster_len t ucs)%nat.
+Proof.
+  intros Hn. unfold cluster_len. pose proof (match_len_pos t ucs Hn).
+  repeat match goal with |- context [match ?x with _ => _ end] => destruct x end; auto.
+Qed.
+
+(* nothing lost, nothing invented, never out of fuel: for every string *)
+Lemma split_unicode_fuel_ok t : clusters_nonempty t -> forall fuel ucs,
+  (List.length ucs <= fuel)%nat ->
+  exists cls, split_unicode_fuel fuel t ucs = Ok cls /\ concat cls = ucs
+              /\ Forall (fun c => c <> []) cls.
+Proof.
+  intros Hn. induction fuel as [|f IH]; intros ucs Hl.
+  - destruct ucs; [|cbn in Hl; lia]. exists []. cbn. auto.
+  - destruct ucs as [|c0 r] eqn:Eu; [exists []; cbn; auto|]. rewrite <- Eu in *.
+    assert (Hne : ucs <> []) by (rewrite Eu; discriminate).
+    pose proof (cluster_len_pos t ucs Hn) as Hp.
+    assert (Hs : (List.length (skipn (cluster_len t ucs) ucs) <= f)%nat).
+    { rewrite skipn_length. lia. }
+    destruct (IH _ Hs) as (rest & H1 & H2 & H3).
+    exists (firstn (cluster_len t ucs) ucs :: rest).
+    replace (split_unicode_fuel (S f) t ucs) with
+      (do rest <- split_unicode_fuel f t (skipn (cluster_len t ucs) ucs);
+       Ok (firstn (cluster_len t ucs) ucs :: rest)) by (rewrite Eu; reflexivity).
+    rewrite H1. cbn [bind]. split; [reflexivity|]. split.
+    + cbn [concat]. rewrite H2. apply firstn_skipn.
+    + constructor; [|exact H3]. intro Hf. apply Hne.
+      destruct ucs; [reflexivity|]. destruct (cluster_len t (z :: ucs)); [lia | discriminate].
+Qed.
+
+Lemma split_unicode_ok t ucs : clusters_nonempty t ->
+  exists cls, split_unicode t ucs = Ok cls /\ concat cls = ucs /\ Forall (fun c => c <> []) cls.
+Proof. intros Hn. unfold split_unicode. apply split_unicode_fuel_ok; auto. Qed.
+
+(* greedy clustering: when a table cluster cl is a prefix of the string (not led by the e-ASCII NUL), the
+   first piece is a table cluster that is a prefix too and at least as long as cl - siblings that share a
+   base letter (a+grave, a+acute) are each recognised *)
+Lemma split_unicode_greedy t c0 rest cl : clusters_nonempty t -> sorted_desc t.(t_clusters) = true ->
+  c0 <> 0 -> In cl t.(t_clusters) -> starts_with cl (c0 :: rest) = true ->
+  exists cl' tail, split_unicode t (c0 :: rest) = Ok (cl' :: tail)
+                   /\ In cl' t.(t_clusters) /\ starts_with cl' (c0 :: rest) = true
+                   /\ (List.length cl <= List.length cl')%nat
+                   /\ concat (cl' :: tail) = c0 :: rest.
+Proof.
+  intros Hn Hs Hc Hin Hsw.
+  destruct (find_first_longest (fun x => starts_with x (c0 :: rest)) _ Hs cl Hin Hsw)
+    as (cl' & Hf & Hin' & Hsw' & Hlen).
+  assert (Hcl : cluster_len t (c0 :: rest) = List.length cl').
+  { unfold cluster_len. assert (Hm : match_len t (c0 :: rest) = List.length cl')
+      by (unfold match_len; rewrite Hf; reflexivity).
+    destruct c0; [congruence | |]; destruct rest; exact Hm. }
+  destruct (split_unicode_ok t (c0 :: rest) Hn) as (cls & H1 & H2 & H3).
+  unfold split_unicode in H1. cbn [List.length split_unicode_fuel] in H1. rewrite Hcl in H1.
+  rewrite (starts_with_firstn cl' _ Hsw') in H1.
+  destruct (split_unicode_fuel (List.length rest) t (skipn (List.length cl') (c0 :: rest))) as [tail| | |] eqn:E;
+    cbn [bind] in H1; try discriminate.
+  injection H1 as <-. exists cl', tail. unfold split_unicode. cbn [List.length split_unicode_fuel].
+  rewrite Hcl, (starts_with_firstn cl' _ Hsw'), E. cbn [bind]. repeat split; auto.
+Qed.
